@@ -117,6 +117,20 @@ Local Hint Resolve matches_err matches_ok_plain matches_ok_ci : core.
 
 Ltac err := apply matches_err; discriminate.
 
+(* From a read of the model store to the same read of the abstract store. *)
+Ltac absget H :=
+  let A := fresh "A" in
+  match type of H with
+  | get_dir ?S ?y = ?v =>
+    pose proof (sget_abs S y) as A; rewrite H in A; cbn [option_map] in A;
+    rewrite ?abs_init in A; rewrite A
+  | get_leaf ?S ?y = ?v =>
+    pose proof (sget_leaf_abs S y) as A; rewrite H in A; cbn [option_map] in A;
+    rewrite ?abs_init in A; rewrite A
+  end.
+
+Ltac bad := cbn [fst snd]; rewrite ?abs_init; split; [reflexivity|err].
+
 Section Ops.
 Variable norm : string -> string.
 Variable hidden : string -> bool.
@@ -163,20 +177,6 @@ Proof.
     cbn [fst snd]. rewrite abs_attach. split; auto.
     repeat split; cbn; auto; congruence.
 Qed.
-
-(* From a read of the model store to the same read of the abstract store. *)
-Ltac absget H :=
-  let A := fresh "A" in
-  match type of H with
-  | get_dir ?S ?y = ?v =>
-    pose proof (sget_abs S y) as A; rewrite H in A; cbn [option_map] in A;
-    rewrite ?abs_init in A; rewrite A
-  | get_leaf ?S ?y = ?v =>
-    pose proof (sget_leaf_abs S y) as A; rewrite H in A; cbn [option_map] in A;
-    rewrite ?abs_init in A; rewrite A
-  end.
-
-Ltac bad := cbn [fst snd]; rewrite ?abs_init; split; [reflexivity|err].
 
 Lemma ref_v_mkdir st x n :
   fst (s_mkdir norm (abs st) x n) = abs (fst (v_mkdir norm st x n)) /\
